@@ -18,6 +18,10 @@ CONSTANTS
   CxxSize <- McSize
   CxxFixedId <- McFixedId
   CxxName <- McName
+  CxxClassK <- McClassK
+  CxxClassT <- McClassT
+  Vias = {"tmpl", "value", "default"}
+  MetaAsk = {"genptr", "mval"}
   TraitsRegs = {"genptr", "mval"}
   GenericPtr = "genptr"
   BasicPtr = "mval"
